@@ -49,7 +49,7 @@ Proof.
 Qed.
 
 Lemma list_sum_app_ (a b : list nat) : list_sum (a ++ b) = list_sum a + list_sum b.
-Proof. induction a as [|x a IH]; cbn; [reflexivity|]. rewrite IH. lia. Qed.
+Proof. apply list_sum_app. Qed.
 
 Theorem par_step_measure : forall s s', par_step s s' -> par_measure s' < par_measure s.
 Proof.
@@ -58,7 +58,7 @@ Proof.
   - rewrite map_app, list_sum_app_. cbn. lia.
   - cbn. lia.
   - rewrite !map_app, !list_sum_app_. cbn [map list_sum]. rewrite after_process_weight.
-    unfold job_weight at 2. rewrite H. lia.
+    unfold job_weight. rewrite H. cbn. lia.
   - destruct (collect f j) as [[o f'] k]. destruct a as [[|]|]; cbn;
       unfold job_weight; rewrite H; lia.
   - lia.
@@ -145,12 +145,12 @@ Qed.
 
 Lemma after_process_ok (m : pmsg) : job_ok (after_process m).
 Proof.
-  unfold job_ok, after_process, is_forward.
-  destruct (par_dec_no_panic m) as [dd Hd]. rewrite Hd.
-  destruct dd as [p id fl| |fa co]; cbn.
-  - right. rewrite Hd. reflexivity.
+  unfold job_ok. rewrite after_process_msg. unfold after_process, is_forward.
+  destruct (par_dec m) as [[p id fl| |fa co]|s] eqn:Hd; cbn [j_st j_nacked].
+  - right. reflexivity.
   - left. reflexivity.
-  - destruct (nack_ok m); cbn; left; reflexivity.
+  - destruct (nack_ok m); cbn [j_st j_nacked]; left; reflexivity.
+  - destruct (par_dec_no_panic m) as [dd Hd']. congruence.
 Qed.
 
 Lemma collect_outcome (failed : bool) (j : job) a :
@@ -177,7 +177,7 @@ Qed.
 
 Lemma par_inv_step ms s s' : par_inv ms s -> par_step s s' -> par_inv ms s'.
 Proof.
-  intros (done & Hms & Hout & Hh & Hj & Ht) H. destruct H; cbn [s_todo s_cq s_obs s_term] in *.
+  intros (done & Hms & Hout & Hh & Hj & Ht) H. destruct H; unfold par_inv; cbn [s_todo s_cq s_obs s_term] in *.
   - exists done. repeat split; try assumption.
     + rewrite Hms, map_app. cbn. rewrite <- !app_assoc. reflexivity.
     + apply Forall_app. split; [exact Hj|]. constructor; [exact I|constructor].
@@ -195,8 +195,8 @@ Proof.
   - exists done. repeat split; try assumption.
     + rewrite Hms, !map_app. cbn [map]. rewrite after_process_msg. reflexivity.
     + apply Forall_app in Hj as [Hj1 Hj2]. apply Forall_app. split; [exact Hj1|].
-      inversion Hj2; subst. constructor; [apply after_process_ok|assumption].
-  - inversion Hj as [|j' cq' Hjok Hjrest]; subst.
+      inversion Hj2 as [|j' cq' Hjok Hjrest]; subst j' cq'. constructor; [apply after_process_ok|assumption].
+  - inversion Hj as [|j' cq' Hjok Hjrest]; subst j' cq'.
     pose proof (collect_outcome f j a H Hjok) as Hc.
     destruct (collect f j) as [[o f'] k]. destruct Hc as [Hc1 Hc2].
     destruct a as [[|]|]; cbn [idle_after s_idle s_dead s_todo s_cq s_obs s_term];
@@ -206,8 +206,8 @@ Proof.
        | cbn [rev]; rewrite forallb_app, Hh; cbn; rewrite Hc2; reflexivity
        | exact Hjrest
        | exact Ht ]).
-  - exists done. repeat split; try assumption. discriminate.
-  - exists done. repeat split; try assumption. reflexivity.
+  - exists done. repeat split; try assumption; try discriminate.
+  - exists done. repeat split; try assumption; try reflexivity.
 Qed.
 
 Lemma par_reach_inv w ms s : par_reach w ms s -> par_inv ms s.
